@@ -207,6 +207,82 @@ def _work(chunk):
     return part.result()
 
 
+# ---- annotated-site family: one function, one annotated site, every annotation (and the interacting pairs) ----------
+SITE_FUNCS = {
+    # site -> (declaration factory, parameter name or None for the return value)
+    'bytes-in': (lambda: Func('foo_site_a', 'void', [('guint8*', 'data'), ('gsize', 'len'), ('int', 'n')]), 'data'),
+    'strv-out': (lambda: Func('foo_site_b', 'void', [('char***', 'strs'), ('gsize*', 'len')]), 'strs'),
+    'ret-strv': (lambda: Func('foo_site_c', 'char**', [('gsize*', 'len'), ('int', 'n')]), None),
+    'ret-str': (lambda: Func('foo_site_d', 'char*', [('int', 'n')]), None),
+    'rec-in': (lambda: Func('foo_site_e', 'void', [('FooRec*', 'rec'), ('int', 'n')]), 'rec'),
+    'rec-out': (lambda: Func('foo_site_f', 'void', [('FooRec**', 'rec'), ('int', 'n')]), 'rec'),
+    'cb': (lambda: Func('foo_site_g', 'void', [('FooFunc', 'func'), ('gpointer', 'ctx'), ('GDestroyNotify', 'dn'), ('int', 'n')]), 'func'),
+    'int-in': (lambda: Func('foo_site_h', 'int', [('int', 'v'), ('int*', 'w')]), 'w'),
+    'list-ret': (lambda: Func('foo_site_i', 'GList*', [('int', 'n')]), None),
+    'ptr-in': (lambda: Func('foo_site_j', 'gpointer', [('gpointer', 'p'), ('gsize', 'len')]), 'p'),
+}
+SITE_ANNS = ['(skip)', '(nullable)', '(optional)', '(allow-none)', '(not nullable)', '(out)', '(inout)', '(out caller-allocates)',
+             '(out callee-allocates)', '(transfer none)', '(transfer full)', '(transfer container)', '(transfer floating)',
+             '(array)', '(array length=len)', '(array fixed-size=4)', '(array zero-terminated=1)', '(array zero-terminated=0)',
+             '(array length=len zero-terminated=1)', '(array length=len zero-terminated=0)',
+             '(array fixed-size=4 zero-terminated=1)', '(array length=len fixed-size=4)', '(array length=n)',
+             '(element-type utf8)', '(element-type guint8)', '(element-type FooRec)', '(type utf8)', '(type FooRec)',
+             '(type GLib.List(utf8))', '(scope call)', '(scope async)', '(scope notified)', '(scope forever)',
+             '(closure ctx)', '(destroy dn)', '(closure ctx) (destroy dn)', '(scope notified) (closure ctx) (destroy dn)',
+             '(attributes a=b c=d)', '(skip) (nullable)', '(out) (optional) (nullable)', '(out) (transfer container) (array length=len)',
+             '(inout) (array length=len) (transfer full)', '(nullable) (transfer full)', '(array length=len) (element-type utf8) (transfer full)']
+
+
+def site_cases():
+    out = []
+    for site in SITE_FUNCS:
+        for a in SITE_ANNS:
+            out.append((site, a))
+    return out
+
+
+def build_site_case(site, ann):
+    decls = [f() for f in BASE]
+    fn, pname = SITE_FUNCS[site]
+    d = fn()
+    decls.append(d)
+    number(decls)
+    if pname is None:
+        text = scanrun.block(d.name, [(p[1], '') for p in d.params], ret=(ann,))
+    else:
+        text = scanrun.block(d.name, [(p[1], ann if p[1] == pname else '') for p in d.params])
+    return decls, [scanrun.comment(text, line=500)]
+
+
+def _work_sites(chunk):
+    part = Part()
+    asan, cases = chunk
+    b = cbuild.build(asan)
+    wd = tools.workdir('c15s')
+    try:
+        for site, ann in cases:
+            decls, comments = build_site_case(site, ann)
+            r = scanrun.scan(decls, comments, includes=['Gio-2.0'], shared_libraries=['libfoo.so'])
+            part.add(evaluations=1, states=1, transitions=1)
+            if r.error or r.xml is None:
+                part.outcome(('scanner-error', (r.error or '')[:40]))
+                part.add(unspecified=1)
+                continue
+            probs = check_gir(b, r.xml, wd, [DEPS], 'Foo-1.0')
+            part.add(traces_validated_against_impl=1)
+            part.nontrivial(repr((site, ann)))
+            part.outcome((site, tuple(sorted(set(p[0] for p in probs)))))
+            for kind, text in probs:
+                part.violation('%s:site:%s:%s|%s' % (kind, site, ann, norm(text)), text,
+                               {'site': site, 'ann': ann, 'c': fake.c_of(decls), 'comments': [c[0] for c in comments]})
+        if cases:
+            d, c = build_site_case(*cases[0])
+            part.sample({'c': fake.c_of(d)[-300:], 'comments': [x[0] for x in c]})
+    finally:
+        tools.cleanup(wd)
+    return part.result()
+
+
 def corpus_files():
     return sorted(glob.glob(os.path.join(REPO, 'tests', 'scanner', '*-expected.gir')))
 
@@ -291,6 +367,8 @@ def run(ctx):
         ctx.merge(r)
     for r in pmap(_work_corpus, [(thorough, [f]) for f in corpus_files()]):
         ctx.merge(r)
+    for r in pmap(_work_sites, [(thorough, c) for c in chunked(rotate(site_cases(), ctx.seed), 32)]):
+        ctx.merge(r)
     ctx.assumptions += ['scanner inputs are symbol trees (the C lexer/parser extension cannot be built here)',
                         'miniature deps GIRs; corpus files whose includes are unavailable are skipped and listed',
                         'glibshim (trusted base); decoder vt/typelib.py; expectation derived from the GIR by vt/c/gir2expect.py '
@@ -308,6 +386,14 @@ def replay(ctx, case):
             sdirs = [os.path.join(REPO, 'tests', 'scanner'), os.path.join(REPO, 'gir'), DEPS]
             data = open(case['file'], 'rb').read()
             probs = check_gir(b, data, wd, sdirs, os.path.basename(case['file']).replace('-expected.gir', ''))
+        elif 'site' in case:
+            decls, comments = build_site_case(case['site'], case['ann'])
+            r = scanrun.scan(decls, comments, includes=['Gio-2.0'], shared_libraries=['libfoo.so'])
+            print(fake.c_of(decls)); print(comments[0][0])
+            if r.xml is None:
+                print('scanner error', r.error)
+                return True
+            probs = check_gir(b, r.xml, wd, [DEPS], 'Foo-1.0')
         else:
             decls, comments = build_case(tuple(case['keys']), case['with_obj'])
             r = scanrun.scan(decls, comments, includes=['Gio-2.0'] if not case['with_obj'] else ['Gio-2.0', 'GObject-2.0'],
